@@ -60,6 +60,13 @@ def seq_len(xs):
     return len(xs)
 
 
+class Struct:
+    """plain attribute holder for duck-typed parameters in contracts (native side)"""
+
+    def __repr__(self):
+        return f'Struct({vars(self)})'
+
+
 def _mk(cls, fields):
     o = object.__new__(cls)
     for k, v in fields.items():
@@ -83,6 +90,16 @@ def eq(a, b):
     return a == b
 
 
+def idx_of(row, rows=None):
+    """index of a row object in the list it was taken from (witness for exists-clauses)"""
+    if rows is None:
+        raise ValueError('idx_of needs the list natively')
+    for i, r in enumerate(rows):
+        if r is row:
+            return i
+    return -1
+
+
 def opaque(f):
     """marks a specification predicate as opaque for the solver: calls are encoded as an
     uninterpreted predicate; a contract listing it under reveal= gets the defining axiom
@@ -92,4 +109,4 @@ def opaque(f):
 
 
 SPEC_NAMES = ['implies', 'iff', 'forall', 'exists', 'ite', 'approx', 'close', 'is_none', 'same_object', 'raw',
-              'is_quantity', 'is_number', 'seq_len', 'eq']
+              'is_quantity', 'is_number', 'seq_len', 'eq', 'idx_of']
